@@ -857,6 +857,16 @@ void rt_sched_point(int kind)
 	me->yields++;
 	if (kind == Y_RELAX)
 		me->relaxes++;
+	if (me->stall_armed) {
+		/* "after" variant: the planned access has executed, the suspension starts at the access that follows it */
+		me->stall_armed = 0;
+		me->stall_ord = 1;
+		me->stall_mask = ~0u;
+	} else if (me->stall_after && me->stall_ord == 1 && (me->stall_mask & (1u << kind)) &&
+		   !G.quiet && G.solo_tid < 0 && !me->frozen && me->sigdepth == 0) {
+		me->stall_ord = 0;
+		me->stall_armed = 1;
+	}
 	if (me->stall_ord && (me->stall_mask & (1u << kind)) && --me->stall_ord == 0 &&
 	    !G.quiet && G.solo_tid < 0 && !me->frozen && me->sigdepth == 0) {
 		int i;
@@ -1045,6 +1055,7 @@ void usim_solo_end(void)
 }
 
 void usim_lib_threads_create_fail(int on) { G.lib_create_fail = on; }
+void usim_require_library_threads_block_signals(int on) { G.lib_threads_block_signals = on; }
 
 void usim_allow_create_fail(int on)
 {
@@ -1066,12 +1077,22 @@ void usim_stall_plan(int ordinal, uint32_t steps)
 	me->stall_mask = (1u << Y_ATOMIC_LD) | (1u << Y_ATOMIC_ST) | (1u << Y_RMW) | (1u << Y_FENCE);
 	me->stall_ord = ordinal;
 	me->stall_len = steps;
+	/*
+	 * Half of the planned suspensions begin right AFTER the chosen access has executed, i.e. before
+	 * the very next access of any kind, plain ones included: the state in which something has just
+	 * been published and what follows it in program order (its initialisation, if that is
+	 * misplaced) has not happened yet.
+	 */
+	me->stall_after = steps & 1;
+	me->stall_armed = 0;
 }
 
 void usim_stall_cancel(void)
 {
-	if (cur)
+	if (cur) {
 		cur->stall_ord = 0;
+		cur->stall_armed = 0;
+	}
 }
 
 void usim_pause(void)
@@ -1216,7 +1237,7 @@ static inline void plain_access(uintptr_t a, unsigned sz, int wr)
 	me->accs++;
 	if (me->accs >= me->next_sig_acc)
 		rt_signal_check(me);
-	if (plain_yield_draw())
+	if (me->stall_armed || plain_yield_draw())
 		rt_sched_point(Y_PLAIN);
 	if (G.tso)
 		foreign_stack_sync(me, a);
@@ -1586,6 +1607,20 @@ int usim_pthread_create(pthread_t *thread, const pthread_attr_t *attr,
 	if (!me || !G.active) {
 		fprintf(stderr, "usim: pthread_create outside a simulated run\n");
 		_exit(3);
+	}
+	if (G.lib_threads_block_signals) {
+		/*
+		 * The library keeps application signal handlers off its own helper threads (which are not
+		 * registered readers for most of their life) by creating them with every signal blocked.
+		 */
+		extern char __start_itext[], __stop_itext[];
+		uintptr_t ra = (uintptr_t) __builtin_return_address(0);
+		uint64_t need = (1ULL << (SIGUSR1 - 1)) | (1ULL << (SIGUSR2 - 1)) | (1ULL << (SIGALRM - 1)) |
+				(1ULL << (SIGTERM - 1)) | (1ULL << (SIGINT - 1)) | (1ULL << (SIGHUP - 1));
+		if (ra >= (uintptr_t) __start_itext && ra < (uintptr_t) __stop_itext && (me->sigmask & need) != need)
+			usim_fail("library-thread-signals-unblocked",
+				"the library creates a thread of its own without blocking signals first (mask %#llx): a process-directed signal can run the application's read-side handler on that thread, which is not a registered reader",
+				(unsigned long long) me->sigmask);
 	}
 	rt_sb_drain_all(me);
 	rt_sched_point(Y_SYS);
